@@ -231,9 +231,10 @@ def shape_strategy():
         if k == 3:
             return '%sclass%s%s%s:%spass' % (deco if '@static' not in deco else '', w, n, draw(st.sampled_from(['', '()', '(object)', ' (object, )'])), draw(st.sampled_from([' ', '\n    '])))
         if k == 4:
-            return 'def \\\n    %s(%s): pass' % (n, ', '.join(params))
+            # the name on a continuation line, also flush left (column 0)
+            return 'def \\\n%s%s(%s): pass' % (draw(st.sampled_from(['', '', '    ', ' '])), n, ', '.join(params))
         if k == 5:
-            return 'class \\\n  %s: pass' % n
+            return 'class \\\n%s%s: pass' % (draw(st.sampled_from(['', '  ', '\t'])), n)
         if k == 7:
             # the name directly followed by a line continuation
             return draw(st.sampled_from(['def %s\\\n  (%s): pass', 'async def %s\\\n(%s): pass'])) % (n, ', '.join(params))
